@@ -127,24 +127,25 @@ def version_class(model):
         return model
 
 
-def version_table(table):
+def version_table(table, manager=None):
     """
     Return associated version table for given SQLAlchemy Table object.
 
     :param table: SQLAlchemy Table object
+    :param manager:
+        VersioningManager whose 'table_name' option names the version tables.
+        Without it the default format '%s_version' is assumed.
     """
-    if table.schema:
-        return table.metadata.tables[
-            table.schema + '.' + table.name + '_version'
-        ]
-    elif table.metadata.schema:
-        return table.metadata.tables[
-            table.metadata.schema + '.' + table.name + '_version'
-        ]
+    if manager is not None:
+        name = manager.options['table_name'] % table.name
     else:
-        return table.metadata.tables[
-            table.name + '_version'
-        ]
+        name = table.name + '_version'
+    if table.schema:
+        return table.metadata.tables[table.schema + '.' + name]
+    elif table.metadata.schema:
+        return table.metadata.tables[table.metadata.schema + '.' + name]
+    else:
+        return table.metadata.tables[name]
 
 
 def versioned_objects(session):
@@ -452,11 +453,14 @@ def changeset(obj):
 
 
 class VersioningClauseAdapter(sa.sql.visitors.ReplacingCloningVisitor):
+    def __init__(self, manager=None):
+        self.manager = manager
+
     def replace(self, col):
         if isinstance(col, sa.Column):
-            table = version_table(col.table)
+            table = version_table(col.table, self.manager)
             return table.c.get(col.key)
 
 
-def adapt_columns(expr):
-    return VersioningClauseAdapter().traverse(expr)
+def adapt_columns(expr, manager=None):
+    return VersioningClauseAdapter(manager).traverse(expr)
